@@ -88,9 +88,13 @@ class Model:
         self.prog = prog
         self.ops = {}
         self.body_op = {}
+        self._recv_cache = {}
+        self._csv_cache = {}
+        self._roles_done = False
         self._group()
         for op in self.ops.values():
             self._roles(op)
+        self._roles_done = True
         self._cells()
 
     # ---------------- grouping
@@ -271,7 +275,18 @@ class Model:
         return out
 
     def recv_class(self, op, recv, depth=0):
-        """Classify a receiver expression: (class, detail)."""
+        """Classify a receiver expression: (class, detail).  Memoised once roles are settled (it is asked for every send on
+        every path of every lemma)."""
+        if depth == 0 and getattr(self, "_roles_done", False):
+            ck0 = (op.id, recv)
+            hit = self._recv_cache.get(ck0)
+            if hit is None:
+                hit = self._recv_class(op, recv, depth)
+                self._recv_cache[ck0] = hit
+            return hit
+        return self._recv_class(op, recv, depth)
+
+    def _recv_class(self, op, recv, depth=0):
         P = self.prog
         loads = [x for x in walk(recv) if x[0] == "cellload"]
         if loads:
@@ -328,6 +343,15 @@ class Model:
 
     def _cell_store_values(self, op, base):
         """All values written into cells with this base allocation: (selector, value expr)."""
+        key = (op.id, base)
+        if getattr(self, "_roles_done", False) and key in self._csv_cache:
+            return self._csv_cache[key]
+        out = self._cell_store_values_uncached(op, base)
+        if getattr(self, "_roles_done", False):
+            self._csv_cache[key] = out
+        return out
+
+    def _cell_store_values_uncached(self, op, base):
         out = []
         for bid in op.bodies:
             for e in self.all_effects(bid):
